@@ -419,7 +419,7 @@ def _h_worker (items):
 
 def h_items (quick):
   items = []
-  for topo, depth in (("triangle", 3 if quick else 4), ("square+diag", 2 if quick else 3), ("triangle@3", 2 if quick else 3)):
+  for topo, depth in (("triangle", 3 if quick else 4), ("square+diag", 2 if quick else 3), ("triangle@3", 2 if quick else 3), ("triangle@1", 1 if quick else 2)):
     base = topo.partition("@")[0]
     nl = len(TOPOS[base][1]); ns = len(TOPOS[base][0])
     alpha = [(st, i) for i in range(nl) for st in ("down", "up", "ab", "ba")] + \
@@ -516,7 +516,7 @@ def run (cfg):
   rep.rule = ("G: every multigraph on 2-4 switches (thorough: 5 with a 4-element pair alphabet) where each unordered pair is one of "
               "%r, dpids in and against sorted order, run through the real _calc_spanning_tree/_update_tree; own flood simulation over "
               "the physical links. H: every enabled sequence of <=%d events {a link goes down / up / one-way in either direction, switch disconnect/connect} on a triangle and a "
-              "square with a diagonal (and the triangle again with Discovery(link_timeout=3)) in netsim with real LLDP probes and the real FLOOD action; "
+              "square with a diagonal (and the triangle again with Discovery(link_timeout=3) and (link_timeout=1)) in netsim with real LLDP probes and the real FLOOD action; "
               "after every event the components' own timers (probe sender, link expiry, delayed port checks) run on the virtual clock for two link timeouts plus a check period. P: probe encode->decode for dpids with "
               "bytes in {0,1,0x80,0xff} x ports (1,2,9,10,255,256,12337,0xfeff). distinct = (part, observation, verdict)"
               % (list(PAIR_QUICK), 3 if cfg.quick else 4))
